@@ -281,3 +281,28 @@ func (p *rawParser) str() (string, error) {
 		}
 	}
 }
+
+// ErrClass buckets a ParseRaw error by what is wrong with the text.
+func ErrClass(err error) string {
+	if err == nil {
+		return ""
+	}
+	m := err.Error()
+	for _, c := range [][2]string{{"bare control character", "control-char-in-string"}, {"bad escape", "bad-escape"}, {"bad \\u escape", "bad-escape"}, {"lone surrogate", "lone-surrogate"},
+		{"bad number", "bad-number"}, {"unterminated", "unterminated"}, {"unexpected end", "unterminated"}, {"bad literal", "bad-literal"}, {"trailing data", "trailing-data"}, {"duplicate member", "duplicate-member"},
+		{"expected ',' or", "missing-separator"}, {"expected member name", "bad-member"}, {"expected ':'", "bad-member"}, {"unexpected byte", "unexpected-byte"}} {
+		if len(m) >= len(c[0]) && contains(m, c[0]) {
+			return c[1]
+		}
+	}
+	return "other"
+}
+
+func contains(s, sub string) bool {
+	for i := 0; i+len(sub) <= len(s); i++ {
+		if s[i:i+len(sub)] == sub {
+			return true
+		}
+	}
+	return false
+}
